@@ -8,7 +8,7 @@ from vlib import core, gen
 PROP = "C16"
 META = {
     "technique": "Coq proof: invariants over ALL event histories of a model of the hot-restart bookkeeping (listener state/epoch/ack count/session states; manager state/epoch/pools/reservePools; per-connection FIFOs with arbitrary delay, loss and foreign traffic; dials that may fail; both checkers with tick/time-out events that may fire at any step); tie: histories observed on the real Listener/SessionManager (handlers wrapped through the package dispatch tables, snapshots under the code's own locks) must be accepted by the model, plus an independent oracle",
-    "level_text": "PARTIAL. Proved for any number of sessions and every event history: no reachable hotRestartState without a running checker on either side (under the guard Listener.Run enforces: sessions enter the table after their handshake — without it `return ErrInHandshakeStage` leaves a state that is stuck for ever, C16_exit_unguarded_refuted), a checker's time-out case leaves defaultState, a parked pool implies its pool holds a session of the announced epoch on the new server and the parked session was not closed by the manager, the manager only completes when every pool is parked, GetStream fails only on a pool whose session died by itself, events/acks with another epoch change nothing. Refuted: hotRestartAckCount >= 0 (C16_ack_refuted: an ack handled after the listener's time-out); proved instead for histories in which every matching ack is handled while the listener and that session are in hotRestartState. Observed only (harness): the 2 s timers really fire and bound the exit, dials reach the new server, goroutine scheduling, traffic round trips.",
+    "level_text": "PARTIAL. Proved for any number of sessions and every event history: no reachable hotRestartState without a running checker on either side (under the guard Listener.Run enforces: sessions enter the table after their handshake — without it `return ErrInHandshakeStage` leaves a state that is stuck for ever, C16_exit_unguarded_refuted), a checker's time-out case leaves defaultState, a parked pool implies its pool holds a session of the announced epoch on the new server and the parked session was not closed by the manager, the manager only completes when every pool is parked, GetStream fails only on a pool whose session died by itself, events/acks with another epoch change nothing. hotRestartAckCount is never negative, covers every session in the table still waiting, and outside hotRestartState no session in the table is still waiting (C16_ack_full, all histories; holds since the repair of handleHotRestartAck — an ack counts only in hotRestartState, for the epoch in progress, on a session still waiting; the late-ack history that refuted it before stays as a regression scenario). Observed only (harness): the 2 s timers really fire and bound the exit, dials reach the new server, goroutine scheduling, traffic round trips.",
     "level_note": "Trusted: coqc kernel; the hand-written model (tied by accepted histories on 8 scenario kinds per round, not exhaustive); Go runtime timers and scheduling; the harness infers checker and session-death events from snapshots taken every ~2 ms (histories whose order is not observable are counted and skipped). Go map iteration order in Listener.HotRestart is modelled as list order (only matters on the unreachable early return). The rebuild watcher is outside this model (C17).",
 }
 
@@ -174,7 +174,7 @@ def check(run):
     run.assumptions += [
         "timers fire: the 2 s bound on leaving hotRestartState is observed (generous bound 2 s + 2.5 s), not proved",
         "a session enters Listener.sessions only after newSession returned (handshakeDone = true); checked on every snapshot",
-        "acks carrying the listener's epoch are handled while the listener and that server session are in hotRestartState (C16_ack_partial_timely); violated by the late-ack scenario on the real code",
+        "handleHotRestartAck runs only on a server session that is still in the listener's table (Session.Close removes it and closes the connection; the window between the two is not modelled)",
         "the harness's inferred events (checker done / time-out, session deaths) are in causal order; windows where the order is not observable are skipped",
         "the rebuild watcher does not interfere within a scenario (rebuildInterval 60 s); its interplay is C17",
     ]
